@@ -268,6 +268,15 @@ where
                                         Message::Handshake(Arc::clone(&talkback)),
                                         "to sink: {message:?}"
                                     );
+                                } else if let Message::Error(_) | Message::Terminate = message {
+                                    // this upstream subscription is over: detach everyone before
+                                    // telling them, so that a sink attaching from inside this last
+                                    // fan-out starts a fresh subscription instead of joining the
+                                    // dead one
+                                    let ended = sinks.swap(Arc::new(vec![]));
+                                    for s in &**ended {
+                                        call!(s, message.clone(), "to sink: {message:?}");
+                                    }
                                 } else {
                                     for s in &**sinks.load() {
                                         // skip sinks that detached (or were completed by a nested
@@ -276,9 +285,6 @@ where
                                             call!(s, message.clone(), "to sink: {message:?}");
                                         }
                                     }
-                                }
-                                if let Message::Error(_) | Message::Terminate = message {
-                                    sinks.store(Arc::new(vec![]));
                                 }
                             }
                         }
